@@ -59,8 +59,11 @@ def gen_history(rng):
         new('source', [])
     for _ in range(rng.randrange(3, 8)):
         cands = [n for n in order if nodes[n]['op'] != 'sink']
-        op = rng.choice(['map', 'map', 'union', 'zip', 'zip', 'combine_latest', 'combine_latest'])
-        if op == 'map':
+        op = rng.choice(['map', 'map', 'union', 'zip', 'zip', 'combine_latest', 'combine_latest', 'slice'])
+        if op == 'slice':
+            # a node that takes itself out of the graph once it has seen `end` elements: a graph edit made by the library
+            new('slice', [rng.choice(cands)], start=None, end=rng.choice([1, 2, 3]), step=None)
+        elif op == 'map':
             new('map', [rng.choice(cands)], f=rng.choice(['inc', 'dbl', 'ident']))
         else:
             k = min(len(cands), rng.choice([2, 2, 3]))
@@ -123,7 +126,8 @@ def gen_history(rng):
                     break
         elif r < 0.85:
             cand = [(u, v) for (u, v) in edges
-                    if not (nodes[v]['op'] in ('zip', 'combine_latest') and sum(1 for (a, b) in edges if b == v) <= 1)]
+                    if not (nodes[v]['op'] in ('zip', 'combine_latest') and sum(1 for (a, b) in edges if b == v) <= 1)
+                    and nodes[v]['op'] != 'slice']          # (a finished slice has removed that edge itself)
             if cand:
                 u, v = rng.choice(sorted(cand))
                 ops.append(['disconnect', u, v])
@@ -190,7 +194,7 @@ class DynModel:
         self.nodes = {}
         self.calls = []
         for spec in build:
-            n = MCombineLatestDyn(spec) if spec['op'] == 'combine_latest' else M.CLASSES[spec['op']](spec)
+            n = MCombineLatestDyn(spec) if spec['op'] == 'combine_latest' else M.CLASSES[spec['op']](dict(spec, _detach_both_sides=True) if spec['op'] == 'slice' else spec)
             n.calls = self.calls
             self.nodes[spec['id']] = n
             for u in spec['ups']:
@@ -441,7 +445,10 @@ def _check_case(case, counters, sets):
             if down != up:
                 add('C15:links-asymmetric@%s' % specs.get(target, {}).get('op', '?'),
                     'after op %d %s: only in downstreams %s, only in upstreams %s' % (k, op, sorted(down - up), sorted(up - down)))
-            elif down != set(e for e in mdl.edges() if e[0] in S and e[1] in S):
+            elif set(e for e in down if specs.get(e[1], {}).get('op') != 'slice') != \
+                    set(e for e in mdl.edges() if e[0] in S and e[1] in S and specs.get(e[1], {}).get('op') != 'slice'):
+                # (when a slice takes itself out depends on how many elements reached it, which a diverged combining node
+                # upstream may have changed: its own edges are only checked for being consistent from both ends)
                 add('C15:links!=edit-history@%s' % specs.get(target, {}).get('op', '?'),
                     'after op %d %s: links %s, history prescribes %s' % (k, op, sorted(down ^ mdl.edges()), 'symmetric difference'))
         # gc clause: probes must not have been invoked after their drop
